@@ -172,6 +172,37 @@ def observe_append(path: Path, k2: bytes, v2: bytes, keys) -> dict:
             "raw": Path(path).read_bytes()}
 
 
+def observe_read_then_append(path: Path, k2: bytes, v2: bytes, keys) -> dict:
+    """one long-lived handle object: open 'r' (the torn tail is seen but cannot be cut), close, reopen 'a' on the
+    SAME object (cached table of contents and end-of-file mark), put, close; then a fresh reader lists everything"""
+    from molli.storage.ukvfile import UKVFile
+
+    outs = []
+    try:
+        f = UKVFile(path, "r")
+        outs.append("ok")
+        f.close()
+        outs.append("ok")
+        try:
+            f.open("a")
+            outs.append("ok")
+            try:
+                f.put(k2, v2)
+                outs.append("ok")
+            except Exception as e:
+                outs.append(err_token(e, "put"))
+        except Exception as e:
+            outs += [err_token(e, "reopen"), "err:not-writable"]
+        finally:
+            f.close()
+        outs.append("ok")
+    except Exception as e:
+        outs += [err_token(e, "new")] + ["err:no-handle"] * 4
+    ro = observe_open(path, "r", keys)
+    return {"outs": outs + ro["outs"], "listed": ro["listed"], "vals": ro["vals"], "file": hx(Path(path).read_bytes()),
+            "raw": Path(path).read_bytes()}
+
+
 # ------------------------------------------------------------------ independent scanner (oracle)
 def scan_file(data: bytes):
     """independent re-parse: returns (header dict, [(key, value)], clean) where clean means the blocks tile
@@ -216,7 +247,8 @@ def oracle_crash(ctx, mode, obs, committed: dict, session: dict, session_list, t
 
 def oracle_append(ctx, obs, committed: dict, session_list, new, tag):
     k2, v2 = new
-    if obs["listed"] is None or not obs["outs"][:3] == ["ok", "ok", "ok"]:
+    nlead = 5 if tag.get("mode") == "r,a+put" else 3
+    if obs["listed"] is None or not obs["outs"][:nlead] == ["ok"] * nlead:
         ctx.violation("C03:append-after-crash-fails", f"reopen-for-append + put after a crash at byte {tag.get('offset')}: {obs['outs'][:3]}", tag)
         return
     history = dict(committed) | dict(session_list) | {k2: v2}
